@@ -11,14 +11,14 @@ NRows(A) == Len(A)
 NCols(A) == IF Len(A) = 0 THEN 0 ELSE Len(A[1])
 IsMatrix(A) == \A i \in DOMAIN A : Len(A[i]) = NCols(A)
 IsSquare(A) == IsMatrix(A) /\ NRows(A) = NCols(A)
-Col(A, j) == [i \in DOMAIN A |-> A[i][j]]
-Transpose(A) == [j \in 1..NCols(A) |-> Col(A, j)]
-MatMul(A, B) == [i \in DOMAIN A |-> [j \in 1..NCols(B) |-> RDot(A[i], Col(B, j))]]
-MatVec(A, v) == [i \in DOMAIN A |-> RDot(A[i], v)]
+Col(A, j) == TLCEval([i \in DOMAIN A |-> A[i][j]])
+Transpose(A) == TLCEval([j \in 1..NCols(A) |-> Col(A, j)])
+MatMul(A, B) == LET Bt == Transpose(B) IN TLCEval([i \in DOMAIN A |-> TLCEval([j \in 1..NCols(B) |-> RDot(A[i], Bt[j])])])
+MatVec(A, v) == TLCEval([i \in DOMAIN A |-> RDot(A[i], v)])
 MatAdd(A, B) == [i \in DOMAIN A |-> RAddSeq(A[i], B[i])]
 MatScale(c, A) == [i \in DOMAIN A |-> RScaleSeq(c, A[i])]
 Identity(n) == [i \in 1..n |-> [j \in 1..n |-> IF i = j THEN "1" ELSE "0"]]
-Diag(v) == [i \in DOMAIN v |-> [j \in DOMAIN v |-> IF i = j THEN v[i] ELSE "0"]]
+Diag(v) == TLCEval([i \in DOMAIN v |-> TLCEval([j \in DOMAIN v |-> IF i = j THEN v[i] ELSE "0"])])
 IsSymmetric(A) == IsSquare(A) /\ \A i, j \in DOMAIN A : A[i][j] = A[j][i]
 MatClose(A, B, rtol, atol) == Len(A) = Len(B) /\ \A i \in DOMAIN A : RCloseSeq(A[i], B[i], rtol, atol)
 MaxAbsMat(A) == FoldSeq(LAMBDA row, acc : RMax(acc, RMaxAbsSeq(row)), "0", A)
@@ -45,11 +45,11 @@ LDLPivots(A) ==
   ELSE LET p == A[1][1] IN
        IF ~RLt("0", p) THEN <<p>>
        ELSE LET n == Len(A)
-                S == [i \in 1..(n - 1) |-> [j \in 1..(n - 1) |-> RSub(A[i + 1][j + 1], RDiv(RMul(A[i + 1][1], A[1][j + 1]), p))]]
+                S == TLCEval([i \in 1..(n - 1) |-> TLCEval([j \in 1..(n - 1) |-> RSub(A[i + 1][j + 1], RDiv(RMul(A[i + 1][1], A[1][j + 1]), p))])])
             IN <<p>> \o LDLPivots(S)
 \* positive semi-definite up to the absolute slack eps: A + eps*I is positive definite
-IsPSDWithin(A, eps) == LET B == [i \in DOMAIN A |-> [j \in DOMAIN A |-> IF i = j THEN RAdd(A[i][j], eps) ELSE A[i][j]]]
-                           pv == LDLPivots(B)
+IsPSDWithin(A, eps) == LET B == TLCEval([i \in DOMAIN A |-> TLCEval([j \in DOMAIN A |-> IF i = j THEN RAdd(A[i][j], eps) ELSE A[i][j]])])
+                           pv == TLCEval(LDLPivots(B))
                        IN Len(pv) = Len(A) /\ \A k \in DOMAIN pv : RLt("0", pv[k])
 
 \* Gauss-Jordan elimination on the augmented matrix [A | B]; returns X with A X = B (A square, non-singular)
@@ -57,14 +57,28 @@ RECURSIVE Eliminate(_, _)
 Eliminate(M, k) ==
   IF k > Len(M) THEN M
   ELSE LET piv == CHOOSE r \in k..Len(M) : M[r][k] # "0"
-           sw  == [i \in DOMAIN M |-> IF i = k THEN M[piv] ELSE IF i = piv THEN M[k] ELSE M[i]]
-           nr  == RScaleSeq(RDiv("1", sw[k][k]), sw[k])
-           red == [i \in DOMAIN sw |-> IF i = k THEN nr ELSE RAddSeq(sw[i], RScaleSeq(RNeg(sw[i][k]), nr))]
+           sw  == TLCEval([i \in DOMAIN M |-> IF i = k THEN M[piv] ELSE IF i = piv THEN M[k] ELSE M[i]])
+           nr  == TLCEval(RScaleSeq(RDiv("1", sw[k][k]), sw[k]))
+           red == TLCEval([i \in DOMAIN sw |-> IF i = k THEN nr ELSE RAddSeq(sw[i], RScaleSeq(RNeg(sw[i][k]), nr))])
        IN Eliminate(red, k + 1)
+\* the same elimination with every row rounded to 53 bits after each step (bounded operand size; error ~ 1e-15 * condition number)
+RECURSIVE EliminateR(_, _)
+EliminateR(M, k) ==
+  IF k > Len(M) THEN M
+  ELSE LET cand == {r \in k..Len(M) : M[r][k] # "0"}
+           piv == CHOOSE r \in cand : \A q \in cand : RLe(RAbs(M[q][k]), RAbs(M[r][k]))       \* partial pivoting
+           sw  == TLCEval([i \in DOMAIN M |-> IF i = k THEN M[piv] ELSE IF i = piv THEN M[k] ELSE M[i]])
+           nr  == TLCEval(RRoundSeq(RScaleSeq(RDiv("1", sw[k][k]), sw[k])))
+           red == TLCEval([i \in DOMAIN sw |-> IF i = k THEN nr ELSE RRoundSeq(RAddSeq(sw[i], RScaleSeq(RNeg(sw[i][k]), nr)))])
+       IN EliminateR(red, k + 1)
+SolveR(A, B) == LET n == Len(A)  m == NCols(B)
+                    aug == TLCEval([i \in 1..n |-> TLCEval(RRoundSeq(A[i] \o B[i]))])
+                    res == TLCEval(EliminateR(aug, 1))
+                IN TLCEval([i \in 1..n |-> TLCEval([j \in 1..m |-> res[i][n + j]])])
 Solve(A, B) == LET n == Len(A)  m == NCols(B)
-                   aug == [i \in 1..n |-> A[i] \o B[i]]
-                   res == Eliminate(aug, 1)
-               IN [i \in 1..n |-> [j \in 1..m |-> res[i][n + j]]]
+                   aug == TLCEval([i \in 1..n |-> TLCEval(A[i] \o B[i])])
+                   res == TLCEval(Eliminate(aug, 1))
+               IN TLCEval([i \in 1..n |-> TLCEval([j \in 1..m |-> res[i][n + j]])])
 MatInverse(A) == Solve(A, Identity(Len(A)))
 IsSingular(A) == Det(A) = "0"
 \* rank by exact row reduction
@@ -75,9 +89,9 @@ RankFrom(M, col, rank) ==
        IF cand = {} THEN RankFrom(M, col + 1, rank)
        ELSE LET piv == CHOOSE r \in cand : TRUE
                 k == rank + 1
-                sw == [i \in DOMAIN M |-> IF i = k THEN M[piv] ELSE IF i = piv THEN M[k] ELSE M[i]]
-                nr == RScaleSeq(RDiv("1", sw[k][col]), sw[k])
-                red == [i \in DOMAIN sw |-> IF i <= k THEN (IF i = k THEN nr ELSE sw[i]) ELSE RAddSeq(sw[i], RScaleSeq(RNeg(sw[i][col]), nr))]
+                sw == TLCEval([i \in DOMAIN M |-> IF i = k THEN M[piv] ELSE IF i = piv THEN M[k] ELSE M[i]])
+                nr == TLCEval(RScaleSeq(RDiv("1", sw[k][col]), sw[k]))
+                red == TLCEval([i \in DOMAIN sw |-> IF i <= k THEN (IF i = k THEN nr ELSE sw[i]) ELSE RAddSeq(sw[i], RScaleSeq(RNeg(sw[i][col]), nr))])
             IN RankFrom(red, col + 1, k)
 Rank(A) == IF Len(A) = 0 THEN 0 ELSE RankFrom(A, 1, 0)
 \* quadratic form v^T A w
